@@ -36,11 +36,19 @@ RECURSIVE FlattenAcc(_, _, _)
 FlattenAcc(ss, i, acc) == IF i > Len(ss) THEN acc ELSE FlattenAcc(ss, i + 1, acc \o ss[i])
 Flatten(ss) == FlattenAcc(ss, 1, <<>>)
 
-\* bytes -> bits and back (Len(bits) a multiple of 8)
-BytesToBits(bs) == [i \in 1..(8 * Len(bs)) |-> BitOf(bs[((i - 1) \div 8) + 1], 7 - ((i - 1) % 8))]
-BitsToBytes(b)  == [j \in 1..(Len(b) \div 8) |->
-                      b[8*j-7]*128 + b[8*j-6]*64 + b[8*j-5]*32 + b[8*j-4]*16
-                    + b[8*j-3]*8 + b[8*j-2]*4 + b[8*j-1]*2 + b[8*j]]
+\* bytes -> bits and back (Len(bits) a multiple of 8).  The per-byte table is a
+\* constant TLC evaluates once; concatenation yields concrete tuples (fast to index).
+ByteBitsTab == [x \in 0..255 |-> <<(x \div 128) % 2, (x \div 64) % 2, (x \div 32) % 2, (x \div 16) % 2,
+                                    (x \div 8) % 2, (x \div 4) % 2, (x \div 2) % 2, x % 2>>]
+RECURSIVE BytesToBitsAcc(_, _, _)
+BytesToBitsAcc(bs, i, acc) == IF i > Len(bs) THEN acc ELSE BytesToBitsAcc(bs, i + 1, acc \o ByteBitsTab[bs[i]])
+BytesToBits(bs) == BytesToBitsAcc(bs, 1, <<>>)
+RECURSIVE BitsToBytesAcc(_, _, _)
+BitsToBytesAcc(b, j, acc) ==
+  IF 8 * j > Len(b) THEN acc
+  ELSE BitsToBytesAcc(b, j + 1, Append(acc, b[8*j-7]*128 + b[8*j-6]*64 + b[8*j-5]*32 + b[8*j-4]*16
+                                           + b[8*j-3]*8 + b[8*j-2]*4 + b[8*j-1]*2 + b[8*j]))
+BitsToBytes(b)  == BitsToBytesAcc(b, 1, <<>>)
 
 Ones(n)  == [i \in 1..n |-> 1]
 Zeros(n) == [i \in 1..n |-> 0]
